@@ -176,11 +176,30 @@ int main(int argc, char **argv) {
       request(argv[i], 0);
       cout << "after " << (i - 1) << " ntypes " << interrogate_number_of_types()
            << " lookup_int " << (interrogate_get_type_by_true_name("int") != 0) << "\n";
+      // every one of the six by-name tables must see everything loaded so far
       for (int k = 0; k < interrogate_number_of_types(); ++k) {
         TypeIndex t = interrogate_get_type(k);
-        TypeIndex back = interrogate_get_type_by_true_name(interrogate_type_true_name(t));
-        if (back != t && strlen(interrogate_type_true_name(t)) > 0)
-          cout << "LOOKUP-MISMATCH " << esc(interrogate_type_true_name(t)) << " " << t << " " << back << "\n";
+        struct { const char *what; const char *name; TypeIndex r; } q[3] = {
+          {"type_by_name", interrogate_type_name(t), 0}, {"type_by_scoped_name", interrogate_type_scoped_name(t), 0}, {"type_by_true_name", interrogate_type_true_name(t), 0}};
+        q[0].r = interrogate_get_type_by_name(q[0].name);
+        q[1].r = interrogate_get_type_by_scoped_name(q[1].name);
+        q[2].r = interrogate_get_type_by_true_name(q[2].name);
+        for (int j = 0; j < 3; ++j) {
+          if (strlen(q[j].name) > 0 && q[j].r == 0)
+            cout << "LOOKUP-MISMATCH " << q[j].what << " " << esc(q[j].name) << " -> 0 although type " << t << " bears that name\n";
+        }
+        for (int e = 0; e < interrogate_type_number_of_elements(t); ++e) {
+          ElementIndex el = interrogate_type_get_element(t, e);
+          if (strlen(interrogate_element_name(el)) > 0 && interrogate_get_element_by_name(interrogate_element_name(el)) == 0)
+            cout << "LOOKUP-MISMATCH element_by_name " << esc(interrogate_element_name(el)) << " -> 0\n";
+          if (strlen(interrogate_element_scoped_name(el)) > 0 && interrogate_get_element_by_scoped_name(interrogate_element_scoped_name(el)) == 0)
+            cout << "LOOKUP-MISMATCH element_by_scoped_name " << esc(interrogate_element_scoped_name(el)) << " -> 0\n";
+        }
+      }
+      for (int k = 0; k < interrogate_number_of_manifests(); ++k) {
+        ManifestIndex m = interrogate_get_manifest(k);
+        if (interrogate_get_manifest_by_name(interrogate_manifest_name(m)) == 0)
+          cout << "LOOKUP-MISMATCH manifest_by_name " << esc(interrogate_manifest_name(m)) << " -> 0\n";
       }
     }
     dump();
